@@ -30,6 +30,11 @@ CLAIMED = {
   text='Decides: for ~900 command lines generated from the option grammar (every option in attached/detached form, every mode x input type x -o form, -x names, multi-input combinations, ill-formed options) the exact plan - tools spawned, in order, with their complete argv, output naming, skipped inputs, usage errors before anything runs - equals the documented one; a symbolic first argument shows no undocumented option form is honoured; changeext and the arch-name agreement with targ.c. Not exhaustive over all command lines (finite grammar sample + symbolic single argument); what the spawned tools do is out of scope.',
   note='Trusts clang 14 front end, lib/eai.py, lib/driver.py models (posix_spawn, pipe, wait, array helpers), lib/symstr.py, the reference driver in props/c17.py (DESIGN A.7). config.h is read from /repo (or generated by ./configure into the work dir).',
   design='5/C17'),
+ 'C18': dict(
+  technique='abstract interpretation of driver.c with nondeterministic models of posix_spawnp/wait/waitpid (which child terminates next, with which status; which spawn fails): exhaustive exploration of all schedules per pipeline shape by re-execution DFS; eight trace properties checked on every path',
+  text='Decides, for 14 (quick) / 17 (thorough) pipeline shapes x failure modes {exit 1, signal} x every termination order x every failing spawn position: non-zero exit iff a stage failed; no link after a failure; the failing pipeline output is unlinked; all mkstemp temporaries are unlinked before any exit; SIGTERM to every still-running stage on the first failure; every child reaped; wait bookkeeping consistent (no wait without children, which is the static face of "never hangs"); no command-line input is ever unlinked. Real timing, signal delivery and the tools themselves are abstracted (a killed child is reaped with SIGTERM status); pipe/fcntl/mkstemp failures are not injected.',
+  note='Trusts clang 14 front end, lib/eai.py, the process-API models in lib/driver.py. Shapes with 4-5 stages are in the thorough tier (exploration grows as n! x 2^n).',
+  design='5/C18'),
  'C01': dict(
   technique='abstract interpretation (partial evaluation of the lowering functions over the static type/operator descriptor domain) + AST table extraction vs C11/QBE oracle tables',
   text='Decides structural clauses only: the instruction-selection, conversion, load/store, truthiness and bit-field shift tables that every compiled program is lowered through are extracted from the current source by an abstract interpreter and compared exhaustively (over the finite descriptor domain) with oracle tables written from C11 and the QBE manual; sibling switches are checked for exhaustiveness. Semantic equivalence of emitted IL for arbitrary programs is NOT decided.',
